@@ -41,6 +41,8 @@ type Op struct {
 	NilCtx   bool     `json:"nil_ctx,omitempty"`    // WithMassive(nil)
 	NilOption bool    `json:"nil_option,omitempty"` // a nil Option among the options
 	EmptyTarget bool  `json:"empty_target,omitempty"` // WithTargetDir("") is passed: documented to mean the current directory
+	StrayEncode bool  `json:"stray_encode,omitempty"` // WithEncodeYAML() is passed to an operation that produces no encoded output (known finding: the library then skips growing the tree)
+	Stray    bool     `json:"stray,omitempty"`        // options the operation has no use for are passed too (accepted and ignored, alike in every mode and family)
 	SlashTarget bool  `json:"slash_target,omitempty"` // WithTargetDir("/") is passed: the root directory (outside the jail: refused)
 	Decoys   bool     `json:"decoys,omitempty"`       // every option is preceded by the same option with another value: the last one wins
 	BranchOnly string `json:"branch_only,omitempty"`  // "last" | "mid": only that one of the two branch-format options is passed
@@ -80,6 +82,12 @@ func (o Op) String() string {
 	}
 	if o.Decoys {
 		s += "/every-option-twice"
+	}
+	if o.Stray {
+		s += "/with-unused-options"
+	}
+	if o.StrayEncode {
+		s += "/with-encode-option"
 	}
 	if o.NilOption {
 		s += "/nil-option"
@@ -299,6 +307,17 @@ func opOptions(op Op, ctx context.Context, target string) []gtree.Option {
 	}
 	if op.Strict {
 		opts = append(opts, gtree.WithStrictVerify())
+	}
+	if op.StrayEncode && op.Kind != "output" && op.Encode == 0 {
+		opts = append(opts, gtree.WithEncodeYAML())
+	}
+	if op.Stray {
+		if op.Kind != "verify" {
+			opts = append(opts, gtree.WithStrictVerify())
+		}
+		if !needsFS(op) && !op.EmptyTarget && !op.SlashTarget {
+			opts = append(opts, gtree.WithTargetDir("/nonexistent/gtree-sim-stray-target"))
+		}
 	}
 	if op.NoIter {
 		opts = append(opts, gtree.WithNoUseIterOfSimpleOutput())
